@@ -163,8 +163,9 @@ def equality_test(actual, expected, _exact_strings, _delta):
             if not equality_test(expected[key], actual[key], _exact_strings, _delta):
                 return False
         return True
-    # Two dataclasses
-    elif is_dataclass(expected) and is_dataclass(actual):
+    # Two dataclasses (the classes themselves; unequal instances are simply not equal)
+    elif (isinstance(expected, type) and isinstance(actual, type) and
+          is_dataclass(expected) and is_dataclass(actual)):
         return (expected.__name__ == actual.__name__ and
                 all(e.name == a.name and equality_test(e.type, a.type, _exact_strings, _delta)
                     for e, a in zip(fields(expected), fields(actual))))
